@@ -847,8 +847,20 @@ impl Subscription {
 
 pub type S1Schema = Schema<Query, Mutation, Subscription>;
 
+/// A custom field directive without effect: `@vhNote(tag: String!, level: Int! = 1)`. It exists so that
+/// documents can use a directive whose non-null argument has a default (validation rules about directive
+/// arguments have something to look at besides @skip/@include).
+struct NoEffect;
+impl CustomDirective for NoEffect {}
+
+#[Directive(location = "Field", name = "vhNote")]
+fn vh_note(tag: String, #[graphql(default = 1)] level: i32) -> impl CustomDirective {
+    let _ = (tag, level);
+    NoEffect
+}
+
 pub fn builder() -> SchemaBuilder<Query, Mutation, Subscription> {
-    Schema::build(Query::default(), Mutation, Subscription)
+    Schema::build(Query::default(), Mutation, Subscription).directive(vh_note)
 }
 
 pub fn schema() -> S1Schema {
@@ -998,6 +1010,7 @@ pub fn model() -> Arc<TypeSystem> {
             implements: vec![],
         },
     });
+    ts.custom_directives.push(("vhNote".into(), vec![a("tag", "String!", None), a("level", "Int!", Some(Val::Int(1)))]));
     ts.add(TypeDef {
         name: "Tick".into(),
         kind: Kind::Object { fields: vec![f("n", "Int!"), f("maybe", "Int"), f("bad", "Int"), f("nested", "Dog")], implements: vec![] },
